@@ -33,3 +33,41 @@ Theorem C14_shadowing : forall e x v,
   lookup_var (pop_scope (bind_var (push_scope e) x v)) x = lookup_var e x.
 Proof. exact shadow_then_pop. Qed.
 Print Assumptions C14_shadowing.
+
+(* ------------------------------------------------------------------------------------
+   The environments of the compiler itself (Compile/Lower.v: the model of src/env.rs, tied
+   to the real compiler gate for gate) have the same frame properties, for any wire type:
+   values are wire vectors, copied structurally, never shared. *)
+From GV Require Import Base.Util Panic.PanicRec Compile.Lower Compile.TSem Compile.TSemFacts.
+
+Theorem C14_compiler_assign_reads_back : forall (E E' : @cenv N) x v,
+  env_assign E x v = Ok E' -> env_get E' x = Some v.
+Proof. intros E E' x v. apply env_assign_get. Qed.
+Print Assumptions C14_compiler_assign_reads_back.
+
+Theorem C14_compiler_assign_frame : forall (E E' : @cenv N) x v y,
+  env_assign E x v = Ok E' -> y <> x -> env_get E' y = env_get E y.
+Proof. intros E E' x v y. apply env_assign_frame. Qed.
+Print Assumptions C14_compiler_assign_frame.
+
+Theorem C14_compiler_assign_keeps_scopes : forall (E E' : @cenv N) x v,
+  env_assign E x v = Ok E' -> length E' = length E.
+Proof. intros E E' x v. apply env_assign_depth. Qed.
+Print Assumptions C14_compiler_assign_keeps_scopes.
+
+Theorem C14_compiler_let_frame : forall (E E' : @cenv N) x v y,
+  env_let E x v = Ok E' -> env_get E' x = Some v /\ (y <> x -> env_get E' y = env_get E y).
+Proof. intros E E' x v y H. split; [eapply env_let_get; eauto|intro; eapply env_let_frame; eauto]. Qed.
+Print Assumptions C14_compiler_let_frame.
+
+Theorem C14_compiler_shadowing_ends_with_scope : forall (E E1 E2 : @cenv N) x v y,
+  env_let (env_push E) x v = Ok E1 -> env_pop E1 = Ok E2 -> env_get E2 y = env_get E y.
+Proof. intros E E1 E2 x v y. apply env_shadow_ends. Qed.
+Print Assumptions C14_compiler_shadowing_ends_with_scope.
+
+(* after an if / else every variable holds the value it has on the path taken: merging two
+   environments under a condition bit yields the whole environment of the taken side *)
+Theorem C14_merge_selects_taken_path : forall c a b o, same_env_shape a b -> Forall keys_distinct b ->
+  mux_envs tops c a b o = Ok (if c then a else b, o).
+Proof. exact tsem_mux_envs. Qed.
+Print Assumptions C14_merge_selects_taken_path.
